@@ -52,7 +52,7 @@ def judge(ck, key, text, verdict, trivia, oc):
 def run(ck, tier, seed):
     quick = tier == "quick"
     cfg = "Brackets" if quick else "Brackets_thorough"
-    res = lib.tlc("Brackets", cfg, workers=16, timeout=2400, heap="12g")
+    res = lib.tlc("Brackets", cfg, workers=16, timeout=2400, heap="12g", extra=["-maxSetSize", "4000000"])
     ck.add_tlc("Brackets (StackIsOpeners, DepthBounded, TriviaMeansNoBrackets, StrayIsFinal)", res)
     if not res.ok:
         ck.violation("model", f"Brackets violates {res.violation}", lib.tlc_trace_text(res))
@@ -71,7 +71,7 @@ def run(ck, tier, seed):
             f.write('INIT Init\nNEXT Next\nCONSTANTS\n  Alphabet = {"(", ")", "[", "]", "{", "}", "a", "sp", "nl", "sc", "dq", "sq", "bq", "sl", "st", "hs", "bs"}\n'
                     f"  MaxLen = {maxlen}\n  ShardK = {k}\n  ShardN = {shards}\n")
         try:
-            r = lib.tlc("BracketsExportAll", name, workers=1, env={"OUT": out}, timeout=2400, heap="4g")
+            r = lib.tlc("BracketsExportAll", name, workers=1, env={"OUT": out}, timeout=2400, heap="6g", extra=["-maxSetSize", "4000000"])
         finally:
             os.unlink(os.path.join(lib.SPEC, name + ".cfg"))
         if not r.ok:
